@@ -702,7 +702,9 @@ impl Subject for Subject08 {
         }
     }
     fn canon(&self, w: &W08) -> Vec<u8> {
-        let d = dump(&w.db).unwrap_or_default();
+        // (the metadata entry serialises a HashSet, whose byte order differs from instance to instance)
+        let mut d = dump(&w.db).unwrap_or_default();
+        d.retain(|k, _| k.0 != Column::Metadata.id());
         serde_json::to_vec(&(&w.chain, w.stored_txs.len(), d.len(), hash_of(&d))).unwrap()
     }
 }
@@ -732,7 +734,7 @@ pub fn run(cli: &Cli) {
     }
     let mut run = Run::new(cli, "model_checking");
     let mut quiet = vec![];
-    let depth_of = |s: &Subject08| if s.rocks.is_some() { cli.tier.pick(1, 2) } else { cli.tier.pick(3, 5) };
+    let depth_of = |s: &Subject08| if s.rocks.is_some() { cli.tier.pick(2, 3) } else { cli.tier.pick(4, 6) };
     let max_depth = subs.iter().map(depth_of).max().unwrap_or(0);
     let reports = crate::util::explore_parallel(&subs, |s| Bounds::new(depth_of(s), cli).wall(cli.tier.pick(110, 1200)), cli.threads);
     for r in reports {
